@@ -288,6 +288,7 @@ class FakeCluster:
         self.uid_seq = 0
         self.req_seq = 0
         self.resdefs = {}
+        self.preferred = {}       # API group -> its preferred version (default: the first one in sorted order)
         self.objects = {}        # (rkey, ns, name) -> body
         self.log = {}            # rkey -> [(rv:int, type, body)]
         self.horizon = {}        # rkey -> rv: history at or below is compacted
@@ -642,7 +643,7 @@ class FakeCluster:
                 if rd.group:
                     groups.setdefault(rd.group, set()).add(rd.version)
             return FakeResponse(200, {'groups': [
-                {'name': g, 'preferredVersion': {'version': sorted(vs)[0]},
+                {'name': g, 'preferredVersion': {'version': self.preferred[g] if self.preferred.get(g) in vs else sorted(vs)[0]},
                  'versions': [{'version': v} for v in sorted(vs)]} for g, vs in sorted(groups.items())]})
         if 'group' not in info:
             return self._status(404, 'NotFound')
